@@ -47,3 +47,18 @@ def node(spec, outdir, path):
     if how == "exception":
         raise RuntimeError("member ends with an uncaught exception")
     return 0
+
+
+def heal_child(report, path):
+    """Child spawned right after the tracker died: performs a tracked operation and reports which tracker it talks to."""
+    import warnings
+    from loky.backend import resource_tracker as rt
+    with warnings.catch_warnings(record=True) as wl:
+        warnings.simplefilter("always")
+        before = rt._resource_tracker._pid
+        open(path + ".child", "w").close()
+        rt.register(path + ".child", "file")
+        rec = {"pid": os.getpid(), "tracker_pid_inherited": before, "tracker_pid_after_op": rt._resource_tracker._pid,
+               "relaunched_in_child": any("relaunching" in str(x.message) for x in wl)}
+    with open(report, "w") as fh:
+        json.dump(rec, fh)
